@@ -15,7 +15,7 @@ from . import VERIF, HarnessError
 
 KNOWN_FILE = os.path.join(VERIF, 'known_findings.txt')
 REPLAY_ROOT = os.path.join(VERIF, 'replays')
-EVIDENCE_DIR = os.path.join(VERIF, 'evidence')
+EVIDENCE_DIR = os.environ.get('VERIF_EVIDENCE_DIR', os.path.join(VERIF, 'evidence'))
 WORKERS = int(os.environ.get('VERIF_WORKERS', '16'))
 
 
